@@ -1,0 +1,19 @@
+//go:build !verif
+
+package json
+
+// Verification hooks (build tag "verif"). Without the tag they are empty and
+// inline to nothing.
+
+func verifAcquireDec(d *decodeState) {}
+func verifReleaseDec(d *decodeState) {}
+func verifAcquireEnc(e *encodeState) {}
+func verifReleaseEnc(e *encodeState) {}
+func verifAcquireScan(s *scanner)    {}
+func verifReleaseScan(s *scanner)    {}
+func verifYield(site int)            {}
+
+const (
+	verifSiteTypeEncoder = iota
+	verifSiteTypeFields
+)
